@@ -80,17 +80,30 @@ def grid_case(vd, region, shape, spacing, adj, pixel, extra, mesh, kind):
                 term, repro, kind, nontrivial=obs != "ValueError")
 
 
+_s2sform = [0]
+
+
 def s2s_case(vd, region, shape, pixel, adj, kind):
     from verde.coordinates import shape_to_spacing
-    sp = shape_to_spacing(region, shape, pixel_register=pixel)
+    # the shape (and the region) are handed over as tuple / list / int ndarray / float ndarray in rotation and the SAME
+    # objects are used for a second identical call: both answers must be the spacing of the values given
+    _s2sform[0] += 1
+    f = _s2sform[0] % 3
+    sobj = [tuple(shape), list(shape), np.array(shape)][f]
+    robj = [tuple(region), np.array(region, dtype="float64"), list(region)][f]
+    sp = shape_to_spacing(robj, sobj, pixel_register=pixel)
+    sp2 = shape_to_spacing(robj, sobj, pixel_register=pixel)
+    if tuple(float(v) for v in sp2) != tuple(float(v) for v in sp):
+        sp = sp2      # the second answer is the one judged
     g = vd.grid_coordinates(region, spacing=sp, adjust=ADJ[adj], pixel_register=pixel)
     oshape = g[0].shape
     term = "c07_shape_spacing %s (%s, %s) %s (%s, %s) (%s, %s)" % (
         clist([cD(x) for x in region]), cZ(shape[0]), cZ(shape[1]), cbool(pixel), cD(sp[0]), cD(sp[1]), cZ(oshape[0]), cZ(oshape[1]))
-    repro = ("import verde; from verde.coordinates import shape_to_spacing as f; sp=f(%r,%r,pixel_register=%r); "
-             "print(sp, verde.grid_coordinates(%r, spacing=sp, adjust=%r, pixel_register=%r)[0].shape)") % (
-        list(region), shape, pixel, list(region), ADJ[adj], pixel)
-    return Case({"fn": "shape_to_spacing", "region": list(region), "shape": shape, "pixel": pixel, "adjust": ADJ[adj]},
+    repro = ("import verde, numpy as np; from verde.coordinates import shape_to_spacing as f; s=%s; f(%r,s,pixel_register=%r); sp=f(%r,s,pixel_register=%r); "
+             "print(s, sp, verde.grid_coordinates(%r, spacing=sp, adjust=%r, pixel_register=%r)[0].shape)") % (
+        ["tuple(%r)", "list(%r)", "np.array(%r)"][f] % (list(shape),), list(region), pixel, list(region), pixel, list(region), ADJ[adj], pixel)
+    return Case({"fn": "shape_to_spacing", "region": list(region), "shape": shape, "shape_given_as": ["tuple", "list", "int ndarray"][f],
+                 "called_twice_with_same_objects": True, "pixel": pixel, "adjust": ADJ[adj]},
                 {"spacing": [float(sp[0]), float(sp[1])], "grid_shape": list(oshape)}, term, repro, kind)
 
 
